@@ -196,7 +196,13 @@ impl<'input> Parser<'input> {
     /// This is the expected format of the string value of the `type` argument
     /// of some directives like [`@field`](https://specs.apollo.dev/join/v0.3/#@field).
     pub fn parse_type(mut self) -> SyntaxTree<Type> {
-        grammar::ty::ty(&mut self);
+        {
+            // A root node holds the type together with any ignored tokens around it
+            // and any unexpected tokens, so that a tree can be built for every input.
+            let _root = self.start_node(SyntaxKind::TYPE);
+            grammar::ty::ty(&mut self);
+            self.trailing_tokens_are_errors("expected end of input after the type");
+        }
 
         let builder = Rc::try_unwrap(self.builder)
             .expect("More than one reference to builder left")
@@ -229,6 +235,16 @@ impl<'input> Parser<'input> {
     pub(crate) fn bump(&mut self, kind: SyntaxKind) {
         self.eat(kind);
         self.skip_ignored();
+    }
+
+    /// Used by the standalone type and selection set entry points, whose input must be exactly
+    /// one construct: report every remaining token as an error and keep it in the tree.
+    pub(crate) fn trailing_tokens_are_errors(&mut self, message: &str) {
+        self.skip_ignored();
+        while !matches!(self.peek(), None | Some(TokenKind::Eof)) {
+            self.err_and_pop(message);
+        }
+        self.push_ignored();
     }
 
     /// Consume and skip ignored tokens from the lexer.
